@@ -233,12 +233,26 @@ func (s *Solver) Solve(u *Unit, o *Obligation) *Result {
 				if !goalQF {
 					break
 				}
-				sub := relevantFacts(tb, qf, len(qf)-2, depth)
-				if len(sub) >= len(asserts) {
-					break
+				sub := qf // depth 99: every quantifier-free fact
+				if depth < 99 {
+					sub = relevantFacts(tb, qf, len(qf)-2, depth)
+					if len(sub) >= len(asserts) {
+						break
+					}
 				}
 				pr := NewPrinter(tb)
-				sc := pr.Script(sub, nil, "")
+				complete := len(sub) == len(asserts) // nothing was left out: a model is a model of the obligation
+				var gvr []*Term
+				if complete {
+					for _, in := range u.Inputs {
+						for _, sl := range in.Slots {
+							if sl.Sort.K != KStr {
+								gvr = append(gvr, sl)
+							}
+						}
+					}
+				}
+				sc := pr.Script(sub, gvr, "")
 				u.mu.Unlock()
 				s.mu.Lock()
 				s.n++
@@ -248,11 +262,13 @@ func (s *Solver) Solve(u *Unit, o *Obligation) *Result {
 				os.WriteFile(pathr, []byte("; "+o.Name+" (relevant facts, depth "+fmt.Sprint(depth)+")\n"+sc), 0o644)
 				s.sem <- struct{}{}
 				lim := 8
-				if depth > 1 {
+				if depth == 2 {
 					lim = 6
+				} else if depth > 2 {
+					lim = 15
 				}
 				ctxr, cancelr := context.WithTimeout(context.Background(), time.Duration(lim)*time.Second)
-				ar, _, msr := runOne(ctxr, SolverSpec{"z3-5.1.0", []string{"z3-new", fmt.Sprintf("-T:%d", lim), "-smt2"}}, pathr)
+				ar, outr, msr := runOne(ctxr, SolverSpec{"z3-5.1.0", []string{"z3-new", fmt.Sprintf("-T:%d", lim), "-smt2"}}, pathr)
 				cancelr()
 				<-s.sem
 				if os.Getenv("GPV_KEEP") == "" {
@@ -263,6 +279,21 @@ func (s *Solver) Solve(u *Unit, o *Obligation) *Result {
 				if ar == "unsat" {
 					r.VCBytes = len(sc)
 					r.Status, r.Answer, r.Solver, r.Cases = "discharged", "unsat", "z3-5.1.0", 1
+					return r
+				}
+				if ar == "sat" && complete {
+					r.VCBytes = len(sc)
+					r.Status, r.Answer, r.Solver, r.Cases, r.Output = "failed", "sat", "z3-5.1.0", 1, outr
+					r.Model = map[string]string{}
+					for _, m := range valueRe.FindAllStringSubmatch(outr, -1) {
+						r.Model[strings.Trim(m[1], "|")] = m[2]
+					}
+					u.mu.Lock()
+					if u.failAsserts == nil {
+						u.failAsserts = map[*Obligation][]*Term{}
+					}
+					u.failAsserts[o] = asserts
+					u.mu.Unlock()
 					return r
 				}
 				u.mu.Lock()
@@ -332,7 +363,9 @@ func (s *Solver) Solve(u *Unit, o *Obligation) *Result {
 				return r
 			}
 		}
-		os.Remove(path0)
+		if os.Getenv("GPV_KEEP") == "" {
+			os.Remove(path0)
+		}
 		u.mu.Lock()
 		cases = splitCases(tb, asserts, u.branchConds)
 	}
